@@ -84,17 +84,27 @@ func c14pipeScript(c *ctx, r *rng, nOps int, tag string, idx int) {
 			nShort++
 			pend.shortSeen = true
 			o.T(op, "short")
+		case "lost":
+			o.T(op, st)
+			report("C14 accepted-datagram-not-delivered: the pipe has nothing to read although accepted datagrams are outstanding", map[string]any{"cap": capacity, "outstanding": hxs(pend.items)})
 		default:
 			o.T(op, st)
 		}
-		if head >= 0 && capacity < head && st != "short" {
+		if head >= 0 && capacity < head && st != "short" && st != "lost" {
 			report("C14 read buffer smaller than the next datagram did not report an error", map[string]any{"cap": capacity, "next_len": head, "result": st})
 		}
 	}
 	closed := false
-	for k := 0; k < nOps; k++ {
+	// every third script is write-heavy: the backlog grows to dozens of datagrams while the reader, lagging, keeps taking
+	// some of them (a queue that is deep AND has been read from)
+	wb := 10
+	if idx%3 == 2 {
+		wb = 16
+		nOps += nOps / 2
+	}
+	for k := 0; k < nOps && !hit; k++ {
 		switch x := r.intn(20); {
-		case x < 10:
+		case x < wb:
 			n := 1 + r.intn(40)
 			switch r.intn(12) {
 			case 0:
